@@ -18,3 +18,23 @@ package lib
 //@   returns (data, err)
 //@   ensures err == nil ==> len(data) == length && data != nil
 //@   modifies nothing
+
+//@ ghost var nreads int         -- number of ReadAt calls issued so far
+//@ ghost var lastreadoff int    -- offset of the most recent ReadAt
+
+//@ func os.(*File).ReadAt
+//@   trusted
+//@   returns (n, err)
+//@   ensures nreads == old(nreads) + 1 && lastreadoff == off
+//@   ensures 0 <= n && n <= len(b)
+//@   modifies nreads, lastreadoff, elems(b)
+
+//@ func os.(*File).Stat
+//@   trusted
+//@   returns (fi, err)
+//@   modifies nothing
+
+//@ func io/fs.FileInfo.Size
+//@   trusted
+//@   ensures result == flen && flen >= 0
+//@   modifies nothing
